@@ -347,6 +347,20 @@ func oracleC03(res *RunResult) []Violation {
 				Detail: fmt.Sprintf("op %d (%s) refused with %q but the store changed: logs %v -> %v; this log before=%s after=%s", r.Idx, r.Req.Desc, r.Err, len(r.Pre.Logs), len(r.Post.Logs), short([]byte(r.Pre.CP[r.Req.LogID])), short([]byte(r.Post.CP[r.Req.LogID])))})
 			continue
 		}
+		if r.Req.Known && (r.ReadBack != nil || r.RBErr != nil) {
+			// what the witness itself serves right after the refusal (its own handle, not the side one)
+			pre, had := r.Pre.CP[r.Req.LogID]
+			switch {
+			case r.RBErr == nil && (!had || string(r.ReadBack) != pre):
+				out = append(out, Violation{Class: "state_changed_on_refusal", Sig: "state_changed_on_refusal/served/" + r.Class, OpIdx: r.Idx,
+					Detail: fmt.Sprintf("op %d (%s) refused with %q, yet right afterwards the witness serves %s where it held %s before; faults hit: %v", r.Idx, r.Req.Desc, r.Err, short(r.ReadBack), short([]byte(pre)), r.Fired)})
+				continue
+			case r.RBErr != nil && had && isNotFound(r.RBErr):
+				out = append(out, Violation{Class: "state_changed_on_refusal", Sig: "state_changed_on_refusal/served_lost/" + r.Class, OpIdx: r.Idx,
+					Detail: fmt.Sprintf("op %d (%s) refused with %q, yet right afterwards the witness serves nothing where it held %s before", r.Idx, r.Req.Desc, r.Err, short([]byte(pre)))})
+				continue
+			}
+		}
 		if len(r.Out) > 0 {
 			pre, had := r.Pre.CP[r.Req.LogID]
 			if !had || pre != string(r.Out) {
@@ -385,8 +399,19 @@ func init() {
 			p := &Plan{Scenario: "W"}
 			p.Cfg = genConfig(r, pf)
 			p.Cfg.Snap = true
+			p.Cfg.ReadBack = true
 			p.Ops = genHistory(r, pf, &p.Cfg)
-			switch n % 3 {
+			switch n % 4 {
+			case 3:
+				// SQLite with faults inside the database driver
+				p.Cfg.Store, p.Cfg.Seam, p.Cfg.Clients, p.Cfg.Strategy = "sqlite", "driver", 1, "uniform"
+				for occ := 0; occ < 3*len(p.Ops); occ++ {
+					for _, call := range []string{"drv.Begin", "drv.Query", "drv.Next", "drv.Exec", "drv.Commit", "drv.Rollback"} {
+						if r.Chance(0.05) {
+							p.Faults = append(p.Faults, Fault{At: fmt.Sprintf("c0:%s#%d", call, occ), Kind: "fail"})
+						}
+					}
+				}
 			case 1:
 				addFaults(r, p, 0.08)
 			case 2:
@@ -477,6 +502,11 @@ func cubePlan(n uint64, pv uint64) *Plan {
 func oracleC09(res *RunResult) []Violation {
 	var out []Violation
 	for _, r := range res.Hist {
+		if r.Op.K == "update" && len(r.Fired) > 0 && r.Class == "accept" && r.Want != "accept" && r.Want != "any" {
+			out = append(out, Violation{Class: "verdict_mismatch", Sig: "verdict_mismatch/accepted_under_fault/want=" + r.Want, OpIdx: r.Idx,
+				Detail: fmt.Sprintf("an update hit by storage faults %v may fail, but it was ACCEPTED although the rule that applies to the committed state {%s} is %s: %s", r.Fired, cpBrief(r.StBefore), r.Want, r.Req.Desc)})
+			continue
+		}
 		if r.Op.K != "update" || r.Want == "any" || len(r.Fired) > 0 {
 			continue
 		}
@@ -545,7 +575,18 @@ func init() {
 				// injected fault are not judged, everything after them is, against the last committed state
 				pf.Adversarial, pf.Mutations = 0.35, 0.05
 				p.Ops = genHistory(r, pf, &p.Cfg)
-				addFaults(r, p, 0.12)
+				if n%8 == 7 {
+					p.Cfg.Store, p.Cfg.Seam, p.Cfg.Clients, p.Cfg.Strategy = "sqlite", "driver", 1, "uniform"
+					for occ := 0; occ < 3*len(p.Ops); occ++ {
+						for _, call := range []string{"drv.Begin", "drv.Query", "drv.Next", "drv.Exec", "drv.Commit", "drv.Rollback"} {
+							if r.Chance(0.06) {
+								p.Faults = append(p.Faults, Fault{At: fmt.Sprintf("c0:%s#%d", call, occ), Kind: "fail"})
+							}
+						}
+					}
+				} else {
+					addFaults(r, p, 0.12)
+				}
 			}
 			return p
 		},
